@@ -68,6 +68,10 @@ def make_values(rng, kind, pattern):
         vals = [rng.choice(FRACS + INTEGRAL_FLOATS) for _ in range(n)]
         if n:
             vals[rng.randrange(n)] = rng.choice(FRACS)
+        if n >= 3 and rng.random() < 0.3:
+            # both zeros (equal by value, different strings) next to a fractional value
+            i, j, k = rng.sample(range(n), 3)
+            vals[i], vals[j], vals[k] = rng.choice([(0.0, -0.0), (-0.0, 0.0)]) + (rng.choice(FRACS),)
     else:
         vals = [rng.choice(['a b', '12', '', 'x', 'nan', '3.0']) for _ in range(n)]
     if kind in ('int', 'int32'):
@@ -178,6 +182,20 @@ def run_case(case, rec, ssj=None):
             if not inplace or degenerate:
                 if T.snapshot_series(s) != before:
                     rec.violation('input_modified', tag + 'the input series was modified', case=case)
+                # "a converted copy": the result is another object, and editing it leaves the input alone
+                rec.count('copy_independence_checks')
+                if res is s:
+                    rec.violation('return_value', tag + 'returned the input object itself, not a copy',
+                                  case=case)
+                elif len(res):
+                    try:
+                        res.iloc[0] = 'edited'
+                        res.name = 'renamed'
+                    except Exception:
+                        pass
+                    if T.snapshot_series(s) != before:
+                        rec.violation('input_modified', tag + 'editing the returned series changed the '
+                                      'input series (the result aliases the input)', case=case)
             if degenerate and str(res.dtype) != 'object':
                 rec.violation('return_value', tag + 'documented exception: expected an object-typed copy, '
                               'got dtype %s' % res.dtype, case=case)
@@ -221,6 +239,15 @@ def run_case(case, rec, ssj=None):
         check_converted(rec, case, tag, res, exp, 'the returned column')
         if T.snapshot_df(df) != before:
             rec.violation('input_modified', tag + 'the input frame was modified', case=case)
+        rec.count('copy_independence_checks')
+        if len(res):
+            try:
+                res.iloc[0] = 'edited'
+            except Exception:
+                pass
+            if T.snapshot_df(df) != before:
+                rec.violation('input_modified', tag + 'editing the returned column changed the input frame',
+                              case=case)
     else:
         if not isinstance(res, pd.DataFrame):
             rec.violation('return_value', tag + 'returned %s, expected a DataFrame' % type(res).__name__, case=case)
@@ -232,6 +259,16 @@ def run_case(case, rec, ssj=None):
             rec.violation('conversion', tag + 'other columns of the returned frame differ', case=case)
         if T.snapshot_df(df) != before:
             rec.violation('input_modified', tag + 'the input frame was modified', case=case)
+        rec.count('copy_independence_checks')
+        if len(res):
+            try:
+                res.iloc[0, 1] = 'edited'
+                res.iloc[0, 2] = 'edited'
+            except Exception:
+                pass
+            if T.snapshot_df(df) != before:
+                rec.violation('input_modified', tag + 'editing the returned frame changed the input frame',
+                              case=case)
     return present
 
 
